@@ -445,7 +445,8 @@ def expected_set(tree, at, value, prev=None):
 
 
 def _override_class(node):
-    """class predicate of KF-C05-a: the element's descent list failed and its ascent list passed"""
+    """the element's descent list failed and its ascent list passed (the class of the repaired KF-C05-a: the cases
+    where the old `recurse=False` differed from the documented verdict)"""
     d, u = _down(node)[0], _up(node)[0]
     return d != "U" and u != "U" and not _TRUTHY[d] and _TRUTHY[u]
 
@@ -480,10 +481,10 @@ class C05(Property):
                   '`ret_eq_all_valid_of_store` / `ret_eq_all_valid_after_set` to every history that leaves the unvisited elements truthy (the '
                   '`all_valid` setter before validating) and refuted otherwise (`ret_ne_all_valid_after_set_false`); `all_valid_after_set` '
                   '(setter writes the element and all descendants, getter = conjunction, nothing outside written), `all_valid_getter_level_order`. '
-                  '`validate(recurse=False)`: `validate_norecurse_refines` (as written: descent then ascent on the one element, exact log, last '
-                  'evaluating phase decides), `norecurse_children_untouched`; the DOCUMENTED statement (own verdict by the rules of the full '
-                  'algorithm) is `NoRecurse_Full`, proved under `phasesAgree` (`validate_norecurse_refines_partial`, `norecurse_eq_single`) and '
-                  'refuted by a witness (`norecurse_full_fails`, finding KF-C05-a). `validator_validated`: `trace_refines` (one signal right '
+                  '`validate(recurse=False)`: `validate_norecurse_refines` / `norecurse_full` (the DOCUMENTED statement, for every element: own '
+                  'verdict by the rules of the full algorithm, exact log), `norecurse_eq_single` (= validate() on the one-element tree, '
+                  'unconditionally), `norecurse_children_untouched`; the code before repair 10acb0e is kept as a counter-model '
+                  '(`oldNoRecurse_fails`, `old_norecurse_refines_partial`; regression witness of KF-C05-a in the corpus). `validator_validated`: `trace_refines` (one signal right '
                   'after each validator invoked, raw result, NotEmpty for the fallback), `signals_eq_calls` (invocations in the trace = call log), '
                   '`trace_signals`, `norecurse_trace_refines`. Tied to the real code by correspondence on histories (full validations, '
                   'recurse=False on a random element after 0-2 full validations, all_valid assignments, 40% with a receiver connected) over trees '
@@ -510,10 +511,11 @@ class C05(Property):
         "Flatland.C05.Proofs.fresh_ret_eq_all_valid",
         "Flatland.C05.Proofs.revalidate_store",
         "Flatland.C05.Proofs.validate_norecurse_refines",
+        "Flatland.C05.Proofs.norecurse_full",
         "Flatland.C05.Proofs.norecurse_log_refines",
-        "Flatland.C05.Proofs.validate_norecurse_refines_partial",
-        "Flatland.C05.Proofs.norecurse_full_fails",
         "Flatland.C05.Proofs.norecurse_eq_single",
+        "Flatland.C05.Proofs.oldNoRecurse_fails",
+        "Flatland.C05.Proofs.old_norecurse_refines_partial",
         "Flatland.C05.Proofs.norecurse_ret_is_bool",
         "Flatland.C05.Proofs.norecurse_children_untouched",
         "Flatland.C05.Proofs.all_valid_after_set",
@@ -534,7 +536,6 @@ class C05(Property):
     assumptions = [
         "is_empty/optional of a node are inputs of the model; every step compares the real is_empty of every element with the model input and with the documented per-kind definition (oracle clause is-empty-means-no-content)",
         "container? of a node is computed from the real class flags (validates_up is not None) when the case runs; down/up lists are installed under the attributes the flags name",
-        "validate(recurse=False): the documented own-verdict statement holds under phasesAgree only (KF-C05-a: a passing ascent list overrides a failed descent list)",
     ]
     rule = ("histories on ONE element tree: 1-5 steps from {validate(), validate(recurse=False) on a random element, el.all_valid = True/False/"
             "Unevaluated on a random element}, later steps re-assigning outcomes / optional flags / leaf emptiness for half of the steps; 40% of the "
@@ -565,7 +566,8 @@ class C05(Property):
 
         def cont(k, kids, down=(), up=(), opt=False, **kw):
             return dict({"k": k, "opt": opt, "empty": False, "down": list(down), "up": list(up), "kids": kids}, **kw)
-        # KF-C05-a: recurse=False lets a passing ascent list override a failed descent list
+        # fixed 10acb0e (KF-C05-a): recurse=False let a passing ascent list override a failed descent list; expected
+        # now: returns False, .valid False - as validate() on the element alone
         w = _number(_fix_empty(cont("d", [leaf()], down=["F"], up=["T"])))
         cases.append({"tree": w, "hist": [{"op": "norecurse", "at": 0}, {"op": "validate"}], "signal": True})
         # every container kind once, descent and ascent validators on each, scalar members with validators
@@ -831,20 +833,8 @@ class C05(Property):
         return fails
 
     def classify(self, case, failure):
-        clause = failure.get("clause", "")
-        if clause.startswith("norecurse-own-verdict") or clause.startswith("norecurse-valid-flags"):
-            hist = _history(case)
-            r, at = failure.get("step"), failure.get("at")
-            if r is None or at is None or r >= len(hist):
-                return None
-            node = _find(hist[r][1], at)
-            if not _override_class(node):
-                return None
-            # the only difference: this element reads True where its own verdict is False
-            if clause.startswith("norecurse-own-verdict"):
-                return "KF-C05-a" if (failure["expected"], failure["observed"]) == ("F", "T") else None
-            diff = [(e, o) for e, o in zip(failure["expected"], failure["observed"]) if e != o]
-            return "KF-C05-a" if diff == [([at, "F"], [at, "T"])] else None
+        # KF-C05-a (recurse=False: a passing ascent list overrode a failed descent list) is repaired in /repo
+        # (10acb0e); its witness is a regression case of the corpus.  No open finding.
         return None
 
     def nontrivial(self, case, obs):
@@ -874,7 +864,7 @@ class C05(Property):
                 n = _find(h[1], h[2])
                 t.append("norecurse-on=" + KIND_CLASS[n["k"]])
                 if _override_class(n):
-                    t.append("norecurse-override(KF-C05-a)")
+                    t.append("norecurse-failed-descent-passing-ascent")
         if case.get("signal"):
             t.append("signal-receiver")
             if any(e[0] == "s" and e[2] == "NE" for o in obs["steps"] for e in (o.get("trace") or [])):
@@ -938,6 +928,8 @@ class C05(Property):
                 t = copy.deepcopy(tree)
                 target = [m for m in _preorder(t) if m["id"] == n["id"]][0]
                 del target["kids"][i]
+                if target["k"] == "sd" and not target["kids"] and not target.get("absent"):
+                    target["absent"] = 1          # a SparseDict schema needs at least one field
                 v = variant(t)
                 if v is not None:
                     yield v
